@@ -38,6 +38,10 @@ def check(ck):
         string_token_rows(ck, repo)
     with ck.rule("R4"):
         _null_and_variable(ck, repo)
+        # a variable reaches a position only if its declared type fits it at every level (lists included): its value is handed on
+        # unchanged, so `[Int]` let into `[Int!]!` delivers the null item the literal form refuses
+        from .c06 import _variable_usage_tables
+        _variable_usage_tables(ck, repo)
     with ck.rule("R5"):
         _usage_coverage(ck, repo)
 
